@@ -283,13 +283,20 @@ def run_check(pid, tier, jobs=None):
     errors = []
     violations = []
     notes = []
-    with cf.ProcessPoolExecutor(max_workers=jobs, mp_context=ctx) as ex:
+    budget = float(os.environ.get("VERIF_BUDGET_S", "1500" if tier == "quick" else "10800"))
+    stop_reason = None
+    ex = cf.ProcessPoolExecutor(max_workers=jobs, mp_context=ctx)
+    try:
         futs = {}
         order = sorted(range(len(insts)), key=lambda i: -insts[i].params.get("cost", 1))
         for i in order:
             futs[ex.submit(explore_task, pid, tier, i, [], seed)] = (i, [])
-        while futs:
-            done, _ = cf.wait(list(futs), return_when=cf.FIRST_COMPLETED)
+        while futs and stop_reason is None:
+            done, _ = cf.wait(list(futs), timeout=5, return_when=cf.FIRST_COMPLETED)
+            if time.time() - t0 > budget:
+                stop_reason = "global time budget of %ds exceeded with %d tasks unfinished (inconclusive)" % (budget, len(futs))
+                errors.append(stop_reason)
+                break
             for fu in done:
                 i, prefix = futs.pop(fu)
                 try:
@@ -310,8 +317,21 @@ def run_check(pid, tier, jobs=None):
                     errors.append("instance %s: %s" % (insts[i].name, r["error"]))
                 if r["violation"]:
                     violations.append((i, r["violation"]))
+                    v = r["violation"]
+                    if v["native"] in ("violated", "hang", "exception") and not insts[i].expect:
+                        # a replayed violation decides the check: no need to finish the exploration
+                        stop_reason = "violation"
                 for q in r["new_tasks"]:
                     futs[ex.submit(explore_task, pid, tier, i, q, seed)] = (i, q)
+    finally:
+        procs = list(getattr(ex, "_processes", {}).values())
+        if stop_reason is not None:
+            for p in procs:
+                try:
+                    p.kill()
+                except Exception:  # noqa: BLE001
+                    pass
+        ex.shutdown(wait=stop_reason is None, cancel_futures=True)
 
     # ---- verdicts
     exit_code = EXIT_OK
@@ -350,7 +370,7 @@ def run_check(pid, tier, jobs=None):
     # vacuity: every instance must have reached at least one obligation on a feasible path
     for i, inst in enumerate(insts):
         st = results.get(i)
-        if st is None:
+        if st is None or stop_reason is not None:
             continue
         if st["proves"] == 0 and not any(vi == i for vi, _ in violations) and not any(
             inst.name in e for e in errors
